@@ -324,7 +324,7 @@ Call(e) ==
             IF isPurge THEN 0
             ELSE Cardinality({p \in Changed(e) : ~(p[1] = c /\ p[2] = k)
                 /\ NoJson(DocOf(no[p[1]][p[2]], FALSE)) # NoJson(docs[p[1]][p[2]])
-                /\ Fail(IF p[1] = c THEN {"C01"} ELSE {"C11"}, e, <<"other-doc-changed", p[1], p[2]>>,
+                /\ Fail(IF p[1] = c THEN {"C01"} ELSE {"C11", "C01"}, e, <<"other-doc-changed", p[1], p[2]>>,
                         Brief(docs[p[1]][p[2]]), Brief(DocOf(no[p[1]][p[2]], FALSE)))})
         \* ---- live feed: exactly one faithful event per mutation, none otherwise (C08)
         liveWant(c2) == IF c2 = c /\ mut /\ ~isPurge THEN <<EventOf(k, post, CollId(c))>> ELSE <<>>
